@@ -33,7 +33,7 @@ def _mutations(e, rnd):
                 elif "test" in f:
                     f["test"] = "allof" if f["test"] != "allof" else "anyof"
             return c
-        c["st"] = 207
+        c["st"] = 207 if c["st"] != 207 else 500
         return c
     if k == "cli":
         if e["doc"]:
